@@ -215,7 +215,7 @@ pub fn scenarios(tier: Tier) -> Vec<Scenario> {
         for rcv in [Rcv::Blocking, Rcv::Timed, Rcv::Polling] {
             let r = Race { shape, rcv };
             let name = format!("{:?}", r);
-            let bound = if tier.is_quick() { 2 } else { 3 };
+            let bound = 3;
             v.push(Scenario::new(name, sched_cfg(), bound, move || race_body(&r)));
         }
     }
@@ -228,32 +228,44 @@ fn path_body(nchan: usize) -> impl Fn(&Vec<Op>) -> Result<(), String> {
 
 pub fn run(tier: Tier, _part: bool) -> i32 {
     let mut rep = Report::new("C03", tier, "model_checking");
-    // (1) model BFS + conformance replay of every transition
-    let (nchan, depth, maxstates) = if tier.is_quick() { (3, 5, 4000) } else { (4, 7, 60000) };
-    let g = bfs(nchan, depth, 2, 4, true, maxstates);
+    // (1) model BFS + conformance replay of every transition, for two bound sets
+    let graphs: Vec<(usize, usize, usize)> = if tier.is_quick() { vec![(3, 4, 20000), (2, 7, 4000)] } else { vec![(3, 6, 80000), (4, 5, 60000), (2, 12, 20000)] };
     let mut n = 0u64;
-    let mut fails = Vec::new();
+    let mut states = 0u64;
+    let mut transitions = 0u64;
+    let mut all_closed = true;
+    let mut bounds = Vec::new();
     let cfg = Cfg::default();
-    sweep_batched(&g.paths, 32, 120.0, &cfg, &path_body(nchan), &mut |_, p, r| {
-        n += 1;
-        if let Err(e) = r {
-            fails.push((p.clone(), e));
+    for (nchan, depth, maxstates) in graphs {
+        let g = bfs(nchan, depth, 2, 4, true, maxstates);
+        let mut fails = Vec::new();
+        sweep_batched(&g.paths, 32, 120.0, &cfg, &path_body(nchan), &mut |_, p, r| {
+            n += 1;
+            if let Err(e) = r {
+                fails.push((p.clone(), e));
+            }
+        });
+        for (p, e) in fails {
+            if e.starts_with("MACHINERY") {
+                rep.machinery(e);
+            } else {
+                rep.fail(&format!("{} :: path {:?}", e, p), json!({"engine": "model-path", "nchan": nchan, "path": p}));
+            }
         }
-    });
-    for (p, e) in fails {
-        if e.starts_with("MACHINERY") {
-            rep.machinery(e);
-        } else {
-            rep.fail(&format!("{} :: path {:?}", e, p), json!({"engine": "model-path", "nchan": nchan, "path": p}));
-        }
+        states += g.states as u64;
+        transitions += g.paths.len() as u64;
+        // "closed" here means: every history up to the depth bound was covered (the state cap was not hit)
+        let complete_to_depth = g.states < maxstates;
+        all_closed &= complete_to_depth;
+        bounds.push(json!({"channels": nchan, "max_depth": depth, "max_queue_per_channel": 2, "max_live_handles": 4, "max_states": maxstates,
+                           "states": g.states, "transitions": g.paths.len(), "depth_reached": g.depth_reached, "every_history_up_to_depth_covered": complete_to_depth}));
+        rep.sample(json!({"model_path": g.paths[g.paths.len() * 2 / 3]}));
     }
-    rep.set("model_states", json!(g.states));
-    rep.set("model_transitions", json!(g.paths.len()));
-    rep.set("model_depth", json!(g.depth_reached));
-    rep.set("model_closed_under_bounds", json!(g.closed));
-    rep.set("model_bounds", json!({"channels": nchan, "max_depth": depth, "max_queue_per_channel": 2, "max_live_handles": 4, "max_states": maxstates}));
-    rep.sample(json!({"model_path": g.paths[g.paths.len() * 2 / 3]}));
-    rep.sample(json!({"model_path": g.paths[g.paths.len() - 1]}));
+    rep.set("model_graphs", json!(bounds));
+    rep.set("model_states", json!(states));
+    rep.set("model_transitions", json!(transitions));
+    struct G { states: usize, paths: Vec<()>, closed: bool }
+    let g = G { states: states as usize, paths: vec![(); transitions as usize], closed: all_closed };
     // (2) races
     let scs = scenarios(tier);
     let tot = e1::run_scenarios(&mut rep, &scs, &e1::strict_judge, if tier.is_quick() { 25.0 } else { 2000.0 });
@@ -268,7 +280,10 @@ pub fn run(tier: Tier, _part: bool) -> i32 {
     rep.set("distinct_nontrivial", json!(tot.with_switch + n));
     if !g.closed {
         rep.set("exhaustive", json!(false));
-        rep.set("cap_note", json!("the model state graph was cut at the stated depth / state bound: every state and transition up to that bound was covered, deeper histories were not"));
+        rep.set("cap_note", json!("a model state graph hit its state cap before its depth bound (see model_graphs): every state and transition found was covered, but not every history up to that depth"));
+    } else {
+        rep.set("exhaustive", json!(true));
+        rep.set("bound_note", json!("exhaustive within the stated bounds: every history up to the depth bound of each model graph (model_graphs) and every schedule up to the deviation bound of each scenario; deeper histories are not covered"));
     }
     rep.set("rule", json!("model part: BFS over the reference model's state graph (operations clone / drop / send / embed sender / embed receiver / receive x3 variants / drop receiver / move to thread / move to forked process), canonical-state dedup; every transition is replayed from scratch on the real API as (shortest path to its source state + the operation) and every result compared; after the last operation every held receiver for which the model predicts Empty/Disconnected is probed. E1 part: one evaluation = one schedule of droppers racing a blocked/timed/polling receiver"));
     rep.assume("canonical form merges handles of the same channel in the same state (they are interchangeable) and ignores payload tags");
